@@ -8,6 +8,8 @@ E2: explicit-state BFS over the real VacancyMediated object.  Operations (the al
   gf:same gf:6/4 calc.GFcalc = calc.GFcalculator(NGFmax) with the current / the other mesh parameter
   regen:1 regen:2 generate(N'); generatematrices(); generatetags()
   saveload      addhdf5 into an in-memory HDF5 file, loadhdf5 back, continue on the loaded object
+  foreign       ANOTHER calculator (same network, lattice scaled by 1.25, Nthermo 1, loaded from a cache-less HDF5 file) evaluates
+                a, b, c in the same process: state shared between instances (class attributes, module tables) would leak
 States are kept as deep copies of (calculator, last result) so that aliasing between results and caches survives;
 canon = (Nthermo, NGFmax, cached keys with the bytes of their values, bytes of the last result, alias pattern, reloaded).
 Oracle: every Lij(x) equals the value a freshly constructed calculator with the current (Nthermo, NGFmax) returns for x.
@@ -26,7 +28,7 @@ RULE = ('states = distinct canonical states reached by operation sequences up to
 LEVEL_TEXT = 'Every operation sequence up to the depth bound (with state de-duplication) on each listed crystal; results compared with a fresh calculator bit-for-bit when the GF path is identical, to 1e-9 otherwise.'
 LEVEL_NOTE = 'canon merges states with identical Nthermo, NGFmax, cache contents (bytes), last-result bytes and aliasing pattern: Lij reads nothing else that is mutable.'
 
-OPS = ['L:a', 'L:b', 'L:c', 'scribble', 'clear', 'gf:same', 'gf:other', 'regen:1', 'regen:2', 'saveload']
+OPS = ['L:a', 'L:b', 'L:c', 'scribble', 'clear', 'gf:same', 'gf:other', 'regen:1', 'regen:2', 'saveload', 'foreign']
 CONFIGS = {'FCC': ('FCC', 0), 'HONEY2': ('HONEY', 1), 'HCP': ('HCP', 0), 'SQUARE': ('SQUARE', 0), 'ROMEGA': ('ROMEGA', 0)}
 
 
@@ -78,10 +80,32 @@ def reference(config, N, NGF, which):
     return _REF[k]
 
 
+_FOREIGN = {}
+
+
+def foreign_eval(config):
+    if config not in _FOREIGN:
+        from onsager import crystal
+        name, icut = CONFIGS[config]
+        crys, chem, sl, jn = catalog.network(name, icut)
+        crysF = crystal.Crystal(crys.lattice * 1.25, crys.basis, crys.chemistry)
+        built = OnsagerCalc.VacancyMediated(crysF, chem, crysF.sitelist(chem), crysF.jumpnetwork(chem, catalog.meta(name)['cut'][icut] * 1.25), 1, 4)
+        f = h5py.File('c14f.h5', 'w', driver='core', backing_store=False)
+        try:
+            built.addhdf5(f)
+            _FOREIGN[config] = OnsagerCalc.VacancyMediated.loadhdf5(f)
+        finally:
+            f.close()
+    c = _FOREIGN[config]
+    c.clearcache()
+    for which in 'abc':
+        c.Lij(*c.preene2betafree(1.0, **input_data(config, 1, which)))
+
+
 def canon(state):
-    calc, last, reloaded = state
+    calc, last, reloaded = state[:3]
     h = hashlib.sha1()
-    h.update(repr((int(calc.Nthermo), int(calc.NGFmax), bool(reloaded))).encode())
+    h.update(repr((int(calc.Nthermo), int(calc.NGFmax), bool(reloaded), bool(state[3]) if len(state) > 3 else False)).encode())
     ids = {}
     for name in ('GFvalues', 'Lvvvalues', 'etavvalues'):
         dct = getattr(calc, name)
@@ -101,8 +125,15 @@ def canon(state):
 
 def apply(config, state, op):
     """returns (newstate, violations list of (oracle, detail), nontrivial flag)"""
-    calc, last, reloaded = copy.deepcopy(state)
+    calc, last, reloaded = copy.deepcopy(state[:3])
+    foreign = bool(state[3]) if len(state) > 3 else False
     fails = []
+    if op == 'foreign':
+        try:
+            foreign_eval(config)
+        except Exception as e:
+            return (calc, last, reloaded, True), [('exception', '{}: {} in the foreign calculator'.format(type(e).__name__, e))], True
+        return (calc, last, reloaded, True), [], True
     if op.startswith('L:'):
         which = op[2]
         d = input_data(config, calc.Nthermo, which)
@@ -111,7 +142,7 @@ def apply(config, state, op):
         except Exception as e:
             import traceback
             tb = traceback.extract_tb(e.__traceback__)[-1]
-            return (calc, None, reloaded), [('exception', '{}: {} @ {}:{}'.format(type(e).__name__, e, tb.name, tb.lineno))], True
+            return (calc, None, reloaded, foreign), [('exception', '{}: {} @ {}:{}'.format(type(e).__name__, e, tb.name, tb.lineno))], True
         ref = reference(config, int(calc.Nthermo), int(calc.NGFmax), which)
         sc = vm.tscale(*ref)
         for name, a, b in zip(('L0vv', 'Lss', 'Lsv', 'L1vv'), L, ref):
@@ -137,7 +168,7 @@ def apply(config, state, op):
             calc.generatematrices()
             calc.tags, calc.tagdict, calc.tagdicttype = calc.generatetags()
         except Exception as e:
-            return (calc, None, reloaded), [('exception', '{}: {} in regenerate'.format(type(e).__name__, e))], True
+            return (calc, None, reloaded, foreign), [('exception', '{}: {} in regenerate'.format(type(e).__name__, e))], True
     elif op == 'saveload':
         f = h5py.File('c14.h5', 'w', driver='core', backing_store=False)
         try:
@@ -147,7 +178,7 @@ def apply(config, state, op):
             f.close()
         reloaded = True
         last = None
-    return (calc, last, reloaded), fails, True
+    return (calc, last, reloaded, foreign), fails, True
 
 
 def evaluate(case):
@@ -156,7 +187,7 @@ def evaluate(case):
         return {'violations': run_history(config, case['history'])}
     name, icut = CONFIGS[config]
     crys, chem, sl, jn = catalog.network(name, icut)
-    start = (OnsagerCalc.VacancyMediated(crys, chem, sl, jn, 1, 4), None, False)
+    start = (OnsagerCalc.VacancyMediated(crys, chem, sl, jn, 1, 4), None, False, False)
     st, fails, _ = apply(config, start, case['first'])
     viols, vkeys = [], set()
     transitions = 1
@@ -202,7 +233,7 @@ def evaluate(case):
 def run_history(config, history):
     name, icut = CONFIGS[config]
     crys, chem, sl, jn = catalog.network(name, icut)
-    state = (OnsagerCalc.VacancyMediated(crys, chem, sl, jn, 1, 4), None, False)
+    state = (OnsagerCalc.VacancyMediated(crys, chem, sl, jn, 1, 4), None, False, False)
     out = []
     for n, op in enumerate(history):
         new, fails, _ = apply(config, state, op)
